@@ -18,8 +18,8 @@ from vlib import proof_coverage
 
 LEVEL = "proof"
 PROFILES_QUICK = {"full": 150, "frag": 110, "safe": 110, "loopelse": 16, "unmodelled": 24}
-PROFILES_THOROUGH = {"full": 2400, "frag": 1500, "safe": 1500, "loopelse": 100, "unmodelled": 300}
-SEM_QUICK, SEM_THOROUGH = 70, 900
+PROFILES_THOROUGH = {"full": 600, "frag": 400, "safe": 400, "loopelse": 40, "unmodelled": 60}
+SEM_QUICK, SEM_THOROUGH = 70, 300
 MAX_REPORTS = 3
 REPLAY = ("cd /verif && echo '[{\"src\": <program text as JSON string>, \"returns_none\": true}]' | "
           "PYTHONPATH=/verif/tools:$VERIF_REPO/guppylang/src:$VERIF_REPO/guppylang-internals/src VERIF_REPO=${VERIF_REPO:-/repo} "
